@@ -177,6 +177,15 @@ def handle (toks : List String) (impl : String) : Verdict :=
          { model := some s!"ok {hexN text}", oracle := o }
        | none => { model := some "err" })
     | none => badOp "hex"
+  | ["apiaspa", n] =>
+    match n.toNat? with
+    | some n =>
+      -- the statement: a file the API builds serialises to a text that parses back to an equal file
+      let want := if n ≤ Rpki.Consts.aspaMaxCount then "ok" else "build-err"
+      { model := some want,
+        oracle := if impl.startsWith "roundtrip" then some s!"a file built through the API with {n} ASPA providers does not come back from its own JSON text: {impl}"
+                  else none }
+    | none => badOp "n"
   | ["drop", ft, pt] =>
     match (parseTree ft).bind Filters.fromJson, parsePayload pt with
     | some f, some p =>
